@@ -1,10 +1,219 @@
-(* Props/C12.v -- property C12 (stub while the proofs are being written) *)
-From Coq Require Import ZArith List String.
-From V Require Import Base.UString Model.Filters Proofs.FiltersBasics.
+(* Props/C12.v -- property C12: queries return exactly the objects satisfying
+   every filter; the shortcuts the filesystem source derives from type / id
+   filters never change the result; attached filters apply.
+   Statements only (proofs: Proofs/FiltersBasics.v, FiltersOpt.v, FiltersFs.v,
+   FiltersLaws.v).  Model: Model/Filters.v; notions: Spec/FilterSpec.v.
+
+   Variants.  ts_mode  = TextOnDicts (the code: timestamp text kept in a
+   dictionary is compared as text) | InstantOnDicts (repaired reading).
+   opt_mode = OptAnyValue (the code: a shortcut is derived from any value of a
+   type / id filter) | OptStringsOnly (proposed fix: only from strings / lists
+   of strings).  The main theorem holds for every filter list in
+   OptStringsOnly and under tyid_wf in OptAnyValue; the *_refuted theorems are
+   the witnesses outside tyid_wf.                                          *)
+From Coq Require Import ZArith List String Permutation.
+From V Require Import Base.UString Model.Filters Spec.FilterSpec
+  Proofs.FiltersBasics Proofs.FiltersOpt Proofs.FiltersFs Proofs.FiltersLaws.
 Import ListNotations.
+
+(* ---- the optimiser never changes the result (DESIGN Appendix A.2) ---- *)
+
+Theorem opt_sound_complete : forall mode om t fl r,
+  Inv mode t -> tyid_wf om fl ->
+  naive mode fl t = Ok r ->
+  exists r', fs_search mode om t fl = Ok r' /\ Permutation r r'.
+Proof. exact opt_sound_complete_lemma. Qed.
+Print Assumptions opt_sound_complete.
+
+Theorem opt_raises_only_if_scan_does : forall mode om t fl e,
+  Inv mode t -> tyid_wf om fl ->
+  fs_search mode om t fl = Raise e -> exists e', naive mode fl t = Raise e'.
+Proof. exact opt_raise_lemma. Qed.
+Print Assumptions opt_raises_only_if_scan_does.
+
+(* the repaired variant needs no hypothesis on the filters at all *)
+Theorem opt_sound_complete_repaired : forall mode t fl r,
+  Inv mode t -> naive mode fl t = Ok r ->
+  exists r', fs_search mode OptStringsOnly t fl = Ok r' /\ Permutation r r'.
+Proof. exact (fun mode t fl r HInv => opt_sound_complete_lemma mode OptStringsOnly t fl r HInv I). Qed.
+Print Assumptions opt_sound_complete_repaired.
+
+(* `scan`, the reference of the theorems above, is what an unfiltered query returns *)
+Theorem scan_is_unfiltered_query : forall mode om t, fs_search mode om t [] = Ok (scan t).
+Proof. exact scan_is_unfiltered_query_lemma. Qed.
+Print Assumptions scan_is_unfiltered_query.
+
+Theorem find_opts_never_raises : forall om fl, tyid_wf om fl -> exists a, find_opts om fl = Ok a.
+Proof. exact find_opts_never_raises_lemma. Qed.
+Print Assumptions find_opts_never_raises.
+
+(* pruning is sound: an object every filter holds for lies where the two AuthSets look *)
+Theorem pruning_sound : forall om fl, tyid_wf om fl ->
+  exists at_ ai, find_opts om fl = Ok (at_, ai) /\ auth_strs at_ /\ auth_strs ai /\
+    forall mode d n o, placed mode d n o -> holds_b mode fl o = true -> auth_pass at_ d /\ auth_pass ai n.
+Proof. exact find_opts_spec. Qed.
+Print Assumptions pruning_sound.
+
+(* the code as it is, outside tyid_wf: a string given to `in`, a number given to `=` *)
+Theorem opt_in_string_refuted : forall mode,
+  Inv mode w_tree /\
+  naive mode [F "type" OIn (vs "identity,x-foo")] w_tree = Ok [w_obj] /\
+  fs_search mode OptAnyValue w_tree [F "type" OIn (vs "identity,x-foo")] = Ok [] /\
+  fs_search mode OptStringsOnly w_tree [F "type" OIn (vs "identity,x-foo")] = Ok [w_obj].
+Proof. exact opt_in_string_refuted_lemma. Qed.
+Print Assumptions opt_in_string_refuted.
+
+Theorem opt_nonstring_refuted : forall mode,
+  Inv mode w_tree /\
+  naive mode [F "id" OEq (VInt 5)] w_tree = Ok [] /\
+  fs_search mode OptAnyValue w_tree [F "id" OEq (VInt 5)] = Raise EAttributeError /\
+  fs_search mode OptStringsOnly w_tree [F "id" OEq (VInt 5)] = Ok [].
+Proof. exact opt_nonstring_refuted_lemma. Qed.
+Print Assumptions opt_nonstring_refuted.
+
+(* ---- apply_common_filters is `filter`; conjunction, monotonicity ---- *)
 
 Theorem apply_filters_is_filter : forall mode fl objs r,
   apply_filters mode fl objs = Ok r <->
   (Forall (defined_on mode fl) objs /\ r = filter (holds_b mode fl) objs).
 Proof. exact apply_filters_ok. Qed.
 Print Assumptions apply_filters_is_filter.
+
+Theorem answer_iff_every_filter_holds : forall mode fl o,
+  holds_b mode fl o = true <-> (forall f, In f fl -> check_filter mode f o = Ok true).
+Proof. exact holds_b_true. Qed.
+Print Assumptions answer_iff_every_filter_holds.
+
+Theorem conj_is_intersection : forall mode fl1 fl2 objs r1 r2,
+  apply_filters mode fl1 objs = Ok r1 -> apply_filters mode fl2 objs = Ok r2 ->
+  apply_filters mode (fl1 ++ fl2) objs = Ok (filter (holds_b mode fl2) r1) /\
+  (forall o, In o (filter (holds_b mode fl2) r1) <-> In o r1 /\ In o r2).
+Proof. exact conj_is_intersection_lemma. Qed.
+Print Assumptions conj_is_intersection.
+
+Theorem more_filters_shrink : forall mode fl extra objs r',
+  apply_filters mode (fl ++ extra) objs = Ok r' ->
+  exists r, apply_filters mode fl objs = Ok r /\ r' = filter (holds_b mode extra) r /\ incl r' r.
+Proof. exact more_filters_shrink_lemma. Qed.
+Print Assumptions more_filters_shrink.
+
+Theorem more_filters_shrink_front : forall mode fl extra objs r r',
+  apply_filters mode (extra ++ fl) objs = Ok r' -> apply_filters mode fl objs = Ok r ->
+  r' = filter (holds_b mode extra) r /\ incl r' r.
+Proof. exact more_filters_shrink_front_lemma. Qed.
+Print Assumptions more_filters_shrink_front.
+
+Theorem fs_conj_is_intersection : forall mode om t fl1 fl2 r1 r2,
+  Inv mode t -> tyid_wf om fl1 -> tyid_wf om fl2 ->
+  naive mode fl1 t = Ok r1 -> naive mode fl2 t = Ok r2 ->
+  exists q1 q2 q12,
+    fs_search mode om t fl1 = Ok q1 /\ fs_search mode om t fl2 = Ok q2 /\
+    fs_search mode om t (fl1 ++ fl2) = Ok q12 /\
+    forall o, In o q12 <-> In o q1 /\ In o q2.
+Proof. exact fs_conj_is_intersection_lemma. Qed.
+Print Assumptions fs_conj_is_intersection.
+
+Theorem fs_more_filters_shrink : forall mode om t fl extra r',
+  Inv mode t -> tyid_wf om (fl ++ extra) ->
+  naive mode (fl ++ extra) t = Ok r' ->
+  exists q q', fs_search mode om t fl = Ok q /\ fs_search mode om t (fl ++ extra) = Ok q' /\ incl q' q.
+Proof. exact fs_more_filters_shrink_lemma. Qed.
+Print Assumptions fs_more_filters_shrink.
+
+(* ---- attached filters apply: the three ways filters reach a source ---- *)
+
+(* FilterSet.add drops a filter equal (==) to one already present; as long as no
+   two filters differ only in the spelling of a value (1 / True / 1.0), the
+   combined query decides every object exactly as the plain concatenation *)
+Theorem attached_filters_apply : forall mode q att comp o,
+  no_fuzzy_dups (q ++ att ++ comp) ->
+  all_hold mode (complete_query q att comp) o = all_hold mode (q ++ att ++ comp) o.
+Proof. exact complete_query_verdict. Qed.
+Print Assumptions attached_filters_apply.
+
+Theorem memory_query_is_naive : forall mode data q att comp,
+  no_fuzzy_dups (q ++ att ++ comp) ->
+  mem_query mode data q att comp = apply_filters mode (q ++ att ++ comp) (mem_objects data).
+Proof. exact mem_query_is_naive. Qed.
+Print Assumptions memory_query_is_naive.
+
+(* every answer of a filesystem search satisfies every filter of the list it ran with -- no hypothesis *)
+Theorem fs_answers_satisfy_filters : forall mode om t fl r o,
+  fs_search mode om t fl = Ok r -> In o r -> forall f, In f fl -> check_filter mode f o = Ok true.
+Proof. exact fs_search_answers_hold. Qed.
+Print Assumptions fs_answers_satisfy_filters.
+
+(* every answer of a source satisfies the query argument, the attached and the composite-passed filters *)
+Theorem source_answers_satisfy_all : forall mode om s q comp r o f,
+  no_fuzzy_dups (q ++ (match s with SMem _ a => a | SFs _ a => a end) ++ comp) ->
+  source_query mode om s q comp = Ok r -> In o r ->
+  In f (q ++ (match s with SMem _ a => a | SFs _ a => a end) ++ comp) -> check_filter mode f o = Ok true.
+Proof. exact source_answers_satisfy. Qed.
+Print Assumptions source_answers_satisfy_all.
+
+(* a composite hands its own filters down: each of its answers is an answer of a member queried with them *)
+Theorem composite_passes_filters_down : forall mode om members catt q outer r o,
+  comp_query mode om members catt q outer = Ok r -> In o r ->
+  exists s r0, In s members /\
+    source_query mode om s q (fset_add (fset_add [] catt) outer) = Ok r0 /\ In o r0.
+Proof. exact composite_answers_from_members. Qed.
+Print Assumptions composite_passes_filters_down.
+
+(* ---- operator semantics ---- *)
+
+(* dotted paths and list-valued properties: the filter holds iff it holds for one of the values the path reaches *)
+Theorem op_path_any : forall mode f segs o vs,
+  path_values segs o = Some vs -> check_path mode f segs o = any_res (check_property mode f) vs.
+Proof. exact check_path_any. Qed.
+Print Assumptions op_path_any.
+
+Theorem op_absent_property : forall mode f m,
+  plookup (hd [] (split_dot (fprop f))) m = None -> check_filter mode f (VDict m) = Ok false.
+Proof. exact absent_property_false. Qed.
+Print Assumptions op_absent_property.
+
+Theorem op_semantics_numbers : forall mode f x a b,
+  num_of x = Some a -> num_of (fval f) = Some b -> is_cmp_op (fop_ f) = true ->
+  check_property mode f x = Ok (cmpZ (fop_ f) a b).
+Proof. exact op_numbers. Qed.
+Print Assumptions op_semantics_numbers.
+
+Theorem op_semantics_strings : forall mode f a b,
+  (mode = InstantOnDicts -> parse_ts a = None) -> fval f = VStr b ->
+  check_property mode f (VStr a) = Ok (cmpS (fop_ f) a b).
+Proof. exact op_strings. Qed.
+Print Assumptions op_semantics_strings.
+
+Theorem op_semantics_in_list : forall mode f x l,
+  fop_ f = OIn -> fval f = VTuple l ->
+  check_property mode f x = Ok (existsb (py_eq x) l).
+Proof. exact op_in_list. Qed.
+Print Assumptions op_semantics_in_list.
+
+(* timestamp strings compared as instants *)
+Theorem ts_on_objects : forall mode f t s t',
+  fval f = VStr s -> parse_ts s = Some t' -> is_cmp_op (fop_ f) = true ->
+  check_property mode f (VTime t) = Ok (cmpZ (fop_ f) t t').
+Proof. exact ts_on_objects_lemma. Qed.
+Print Assumptions ts_on_objects.
+
+Theorem ts_on_dicts_repaired : forall f xs t s t',
+  fval f = VStr s -> parse_ts xs = Some t -> parse_ts s = Some t' -> is_cmp_op (fop_ f) = true ->
+  check_property InstantOnDicts f (VStr xs) = Ok (cmpZ (fop_ f) t t').
+Proof. exact ts_on_dicts_repaired_lemma. Qed.
+Print Assumptions ts_on_dicts_repaired.
+
+Theorem ts_on_dicts_refuted :
+  exists xs s t t', parse_ts xs = Some t /\ parse_ts s = Some t' /\ (t < t')%Z /\
+    check_property TextOnDicts (F "modified" OGt (vs "2020-01-01T00:00:00.5Z")) (VStr xs) = Ok true /\
+    s = u "2020-01-01T00:00:00.5Z".
+Proof. exact ts_on_dicts_refuted_lemma. Qed.
+Print Assumptions ts_on_dicts_refuted.
+
+(* ---- the hypotheses are satisfiable (with a non-empty answer) ---- *)
+
+Example hypotheses_satisfiable : forall mode om,
+  Inv mode w_tree /\ tyid_wf om [F "id" OEq (vs "identity--1"); F "type" ONe (vs "tool")] /\
+  naive mode [F "id" OEq (vs "identity--1"); F "type" ONe (vs "tool")] w_tree = Ok [w_obj] /\
+  fs_search mode om w_tree [F "id" OEq (vs "identity--1"); F "type" ONe (vs "tool")] = Ok [w_obj].
+Proof. exact w_example. Qed.
